@@ -230,16 +230,16 @@ Qed.
 (* ---- resumed connections ---------------------------------------------------------------------- *)
 From TV Require Import Model.C03_Resume Proofs.C03_Resume.
 Definition D12 := with_versions D 1 3 [3; 2; 1] (st_macs D).
-(* first connection negotiates ALPN protocol 1; the resumed one offers no ALPN: the client still reports 1 *)
-Lemma witness_resumed_alpn :
-  exists o r, negotiate (client_of D12 0 None (Some [1])) (server_of D (Some rsa2048) false false (Some [1])) = Ok o /\
-              resume_legacy false (client_of D12 0 None None) (server_of D (Some rsa2048) false false (Some [1]))
-                            (oc_client o) (oc_server o) = Ok r /\
-              rs_resumed r = true /\ vw_alpn (rs_client r) <> vw_alpn (rs_server r).
-Proof.
-  eexists. eexists. split; [vm_compute; reflexivity|]. split; [vm_compute; reflexivity|].
-  split; [vm_compute; reflexivity|vm_compute; discriminate].
-Qed.
+(* first connection negotiates ALPN protocol 1; the resumed one offers no ALPN: both ends report none
+   (until /repo 7678352 the client kept reporting 1: former finding C03-15) *)
+Example resumed_without_alpn :
+  match negotiate (client_of D12 0 None (Some [1])) (server_of D (Some rsa2048) false false (Some [1])) with
+  | Ok o => match resume_legacy false (client_of D12 0 None None) (server_of D (Some rsa2048) false false (Some [1]))
+                                (oc_client o) (oc_server o) with
+            | Ok r => rs_resumed r = true /\ vw_alpn (rs_client r) = None /\ vw_alpn (rs_server r) = None
+            | Err _ => False end
+  | Err _ => False end.
+Proof. vm_compute. repeat split; reflexivity. Qed.
 
 Example resumed_with_limits :
   match negotiate (client_of D12 0 None None) (server_of D (Some rsa2048) false false None) with
@@ -249,13 +249,3 @@ Example resumed_with_limits :
             | Err _ => False end
   | Err _ => False end.
 Proof. vm_compute. split; reflexivity. Qed.
-
-Lemma resumed_views_agree_refuted_alpn_pf :
-  exists t c s o c2 s2 r, negotiate c s = Ok o /\ resume_legacy t c2 s2 (oc_client o) (oc_server o) = Ok r /\
-                          vw_alpn (rs_client r) <> vw_alpn (rs_server r).
-Proof.
-  destruct witness_resumed_alpn as [o [r [A [B [_ C]]]]].
-  exists false, (client_of D12 0 None (Some [1])), (server_of D (Some rsa2048) false false (Some [1])), o,
-         (client_of D12 0 None None), (server_of D (Some rsa2048) false false (Some [1])), r.
-  repeat split; assumption.
-Qed.
